@@ -265,6 +265,13 @@ func (e *Exec) wfInitial(name string, elem bool, sort string, t types.Type) {
 	if f.S == "true" {
 		return
 	}
+	// only objects that exist at entry: the content of unallocated cells is unconstrained (a callee's
+	// fresh objects are described by its postcondition)
+	if elem {
+		f = tImp(Term{fmt.Sprintf("(and (< 0 wa) (<= wa %s))", e.entryAlloc.S), SBool}, f)
+	} else {
+		f = tImp(Term{fmt.Sprintf("(and (< 0 wr) (<= wr %s))", e.entryAlloc.S), SBool}, f)
+	}
 	e.smt.axioms = append(e.smt.axioms, fmt.Sprintf("(assert (forall (%s) (! %s :pattern (%s))))", bound, f.S, sel.S))
 }
 
@@ -473,6 +480,7 @@ type frame struct {
 	cells map[*ssa.Alloc]*Cell
 	c     *Contract
 	curIns []edgeIn
+	curBlock *ssa.BasicBlock
 	iterPos map[ssa.Value]*Cell
 	iterOf  map[ssa.Value]Value
 	entryState *State
@@ -861,6 +869,7 @@ func (e *Exec) run(fn *ssa.Function, args []Value, bindings []Value, st *State, 
 		cur := e.merge(ins)
 		// phi nodes need the per-edge conditions
 		fr.curIns = ins
+		fr.curBlock = b
 		if li, isLoop := loops[b]; isLoop {
 			cur = e.loopHead(fr, cur, li, c, func(v []Term) { lctx[b] = &loopCtx{variants: v} })
 			if lctx[b] == nil {
